@@ -114,6 +114,11 @@ func tryFastCompare(expression string) *fastCompare {
 		if err != nil {
 			return nil
 		}
+		// A literal beyond 2^53 is not exact in float64: leave it to the general path,
+		// which compares integers as integers.
+		if n >= maxExactFloatInt || n <= -maxExactFloatInt {
+			return nil
+		}
 		return &fastCompare{field: m[1], op: m[2], numLit: n}
 	}
 	if m := fastFieldOpStr.FindStringSubmatch(expression); m != nil {
@@ -234,6 +239,11 @@ func tryFastCompound(expression string) *fastCompound {
 	return &fastCompound{op: op, parts: compares}
 }
 
+// maxExactFloatInt is 2^53: integers of larger magnitude are not all exactly
+// representable in float64, so the float fast path would decide differently from
+// the general evaluator (which compares integers as integers).
+const maxExactFloatInt = 1 << 53
+
 func toFloat64Fast(v any) (float64, bool) {
 	switch x := v.(type) {
 	case float64:
@@ -241,14 +251,26 @@ func toFloat64Fast(v any) (float64, bool) {
 	case float32:
 		return float64(x), true
 	case int:
+		if x > maxExactFloatInt || x < -maxExactFloatInt {
+			return 0, false
+		}
 		return float64(x), true
 	case int64:
+		if x > maxExactFloatInt || x < -maxExactFloatInt {
+			return 0, false
+		}
 		return float64(x), true
 	case int32:
 		return float64(x), true
 	case uint:
+		if x > maxExactFloatInt {
+			return 0, false
+		}
 		return float64(x), true
 	case uint64:
+		if x > maxExactFloatInt {
+			return 0, false
+		}
 		return float64(x), true
 	case uint32:
 		return float64(x), true
